@@ -75,10 +75,17 @@ class _ConcreteScripted:
         return self._rng.uniform(a, b, size)
 
     def normal(self, m=0., s=1., size=None):
-        return self._rng.normal(m, s, size)
+        z = self._rng.standard_normal(size)
+        self.__dict__.setdefault('zlog', []).append(z)
+        return m + s * z
+
+    def standard_normal(self, size=None):
+        z = self._rng.standard_normal(size)
+        self.__dict__.setdefault('zlog', []).append(z)
+        return z
 
 
-def h_sample_prob(ctx, n, r, target, gauge=False):
+def h_sample_prob(ctx, n, r, target, gauge=False, edited=False):
     """sample(): product of the conditional distributions used for the target
     multi-index equals Y[i] / sum(Y) (non-negative cores, unsert = 0)."""
     d = len(n)
@@ -94,6 +101,18 @@ def h_sample_prob(ctx, n, r, target, gauge=False):
         A = np.array([[ctx.const(1), ctx.const(1)], [ctx.const(0), ctx.const(1)]], dtype=Y[0].dtype)
         Ai = np.array([[ctx.const(1), ctx.const(-1)], [ctx.const(0), ctx.const(1)]], dtype=Y[0].dtype)
         Y = [np.einsum('aib,bc->aic', Y[0], A), np.einsum('ab,bic->aic', Ai, Y[1])] + Y[2:]
+    if edited:
+        # the tensor was sampled before and some of its cores were then changed in place
+        # (re-weighting / conditioning by the caller): the distribution is that of the tensor as it is now
+        teneva.sample(Y, 1, seed=_gen(ctx, 'before', script=[0] * d), unsert=0.)
+        w = vec(ctx, 'w', n[-1])
+        for j in range(n[-1]):
+            ctx.assume(ctx.gt(w[j], 0))
+            Y[-1][:, j, :] = Y[-1][:, j, :] * w[j]
+        Y[0][0, 0, :] = Y[0][0, 0, :] * 3
+        F = ref_full(Y)
+        tot = F.sum()
+        ctx.assume(ctx.gt(tot, 0))
     g = _gen(ctx, 'audit', script=list(target))
     I = teneva.sample(Y, 1, seed=g, unsert=0.)
     ctx.claim('shape', I.shape == (1, d))
@@ -199,6 +218,51 @@ def h_square_prob3(ctx, targets):
         p1 = ch[1 + s_][3][t[1]]
         p2 = ch[1 + m + s_][3][t[2]]
         ctx.claim('chain_rule_probability_squared', ctx.eq(p0 * p1 * p2 * tot, F[tuple(t)] * F[tuple(t)]))
+
+
+def h_square_int_seed(ctx, target, ranks):
+    """sample_square with an INTEGER seed on a tensor with interior TT-rank-1
+    bonds (ranks = 'one': rank-1 tensor, d = 3; 'outer': 2 x 2 x 2 x 2 with
+    ranks 1-2-1-2-1 is left to the concrete family).  Environment: the generator
+    that teneva._rand builds from an integer seed is a seed-determined stream,
+    i.e. every generator created from that seed replays the same scripted
+    outcomes from the start.  The sample returned is the scripted multi-index
+    (one outcome of the stream per mode) and the conditionals multiply to
+    Y[i]^2 / ||Y||^2."""
+    c = ctx.const
+    dt = object if is_sym(ctx) else float
+    Q1 = np.array([[c(3) / 5, c(4) / 5]], dtype=dt)
+    Q2 = np.array([[c(5) / 13, c(12) / 13]], dtype=dt)
+    G0 = ctx.array('g0', (1, 2, 1))
+    one = eye(ctx, 1)
+    expect(ctx, 'rq', Q2, (one, Q2))
+    expect(ctx, 'rq', Q1, (one, Q1))
+    expect(ctx, 'rq', Q1 * 2, (one * 2, Q1))
+    Y = [G0, rF(Q1, (1, 2, 1)), rF(Q2, (1, 2, 1))]
+    F = ref_full(Y)
+    tot = sumsq(F)
+    ctx.assume(ctx.gt(tot, 0))
+    made = []
+    real = teneva._rand
+
+    def seeded(seed=None):
+        if isinstance(seed, (int, np.integer)) and not isinstance(seed, bool):
+            g = _gen(ctx, 'audit', script=list(target))
+            made.append(g)
+            return g
+        return real(seed)
+    teneva._rand = seeded
+    try:
+        I = teneva.sample_square(Y, 1, unique=False, seed=7)
+    finally:
+        teneva._rand = real
+    ctx.claim('shape', I.shape == (1, 3))
+    ctx.claim('returns_the_outcomes_of_the_stream_in_order', [int(x) for x in I[0]] == list(target))
+    ch = [e for g in made for e in g.log if e[0] == 'choice']
+    ctx.claim('draw_count', len(ch) == 3)
+    if len(ch) == 3:
+        prob = ch[0][3][target[0]] * ch[1][3][target[1]] * ch[2][3][target[2]]
+        ctx.claim('chain_rule_probability_squared', ctx.eq(prob * tot, F[tuple(target)] * F[tuple(target)]))
 
 
 def h_square_quasi(ctx, d, n, target_i, unique):
@@ -362,6 +426,11 @@ def instances(tier):
                     'opts': {'generic_divisors': True}})
     for targets in ([[0, 0, 1], [1, 0, 0]], [[1, 1, 0], [0, 1, 1]]):
         out.append({'func': 'h_square_prob3', 'params': {'targets': targets}, 'opts': {'generic_divisors': True}})
+    for n, r, tgt in (([2, 2], 2, [1, 0]), ([2, 2, 2], 1, [0, 1, 1])):
+        out.append({'func': 'h_sample_prob', 'params': {'n': n, 'r': r, 'target': tgt, 'edited': True},
+                    'opts': {'generic_divisors': True}})
+    for tgt in ([0, 1, 0], [1, 0, 1]):
+        out.append({'func': 'h_square_int_seed', 'params': {'target': tgt, 'ranks': 'one'}, 'opts': {'generic_divisors': True}})
     out.append({'func': 'h_concrete_many_samples', 'params': {}, 'opts': {'concrete_only': True}})
     out.append({'func': 'h_square_unique_retry', 'params': {'obj': True}, 'opts': {'symbolic_signs': False}})
     for d, n in ([(3, 2)] if quick else [(3, 2), (4, 2), (3, 3)]):
